@@ -444,6 +444,16 @@ W8s["layout"] = {"schema": W8["layout"]["schema"] + [("moods/mood.graphql", ["Mo
 # the file moods/mood.graphql is also reachable as zz_links/zz_shared_link.gql (sorts last) and a_first/a_link.graphql (sorts first)
 W8s["layout_symlink"] = [("moods/mood.graphql", "zz_links/zz_shared_link.gql"), ("moods/mood.graphql", "a_first/a_link.graphql")]
 
+# file names that tie under a case-insensitive or number-aware ordering (Enums / enums, 01_ / 1_ / 001_)
+W8t = copy.deepcopy(W8s)
+W8t["id"] = "W8t-file-names-differing-in-case-and-zero-padding"
+W8t.pop("layout_symlink", None)
+W8t["layout"] = {"schema": [("types/Enums.graphql", ["Mood:enum"]), ("types/enums.graphql", ["Zeta:enum"]), ("types/ENUMS.graphql", ["Alpha:enum"]),
+                            ("01_post.graphql", ["Post:type"]), ("1_post.graphql", ["Post:extend:0"]), ("001_post.graphql", ["Post:extend:1", "Comment:type"]),
+                            ("Query.graphql", ["Query:type", "Mutation:type"]), ("query.graphql", ["Author:type"]),
+                            ("Inputs/filters.gql", ["MoodFilter:input"]), ("inputs/filters.gql", ["AlphaFilter:input"])],
+                 "queries": W8["layout"]["queries"]}
+
 W9 = _world("W9-custom-operations", """
 scalar DateTime
 
@@ -506,8 +516,15 @@ for _d in W9k["defs"]:
     if _d["name"] == "User" and _d["kind"] == "type":
         _d["sdl"] = _d["sdl"].replace("  createdAt: DateTime\n", "  createdAt: DateTime\n  from: User\n  global(in: Int, is: [String!]): String\n  class: Int\n"
                                       "  runJob(command: String!, arguments: [String!], clearedArguments: Int, key: String, value: String, fieldName: Int): String\n")
+    if _d["name"] == "Account" and _d["kind"] == "union":
+        _d["sdl"] = "union Account = User | Admin | FormFields | NetworkInterface"
     if _d["name"] == "Mutation" and _d["kind"] == "type":
         _d["sdl"] = _d["sdl"].replace("  deleteUsers(", "  runJob(command: String!, arguments: [String!], key: String, value: Int): Int\n  deleteUsers(")
+# (types whose own names end in the suffixes the generator appends to its classes)
+W9k["defs"] += [{"name": "FormFields", "kind": "type", "sdl": "type FormFields implements Node {\n  id: ID!\n  title: String\n}"},
+                {"name": "NetworkInterface", "kind": "type", "sdl": "type NetworkInterface implements Node {\n  id: ID!\n  speed(unit: String): Int\n}"},
+                {"name": "Network", "kind": "type", "sdl": "type Network {\n  id: ID!\n  cidr: String\n}"},
+                {"name": "Form", "kind": "type", "sdl": "type Form {\n  id: ID!\n  pages: Int\n}"}]
 W15 = _world("W15-custom-ops-fragments-only", "\n\n".join(d["sdl"] for d in W9["defs"]), """
 fragment UserBits on User {
   id
@@ -1071,7 +1088,7 @@ STATEFUL_NEIGHBOURS = ["W19-builtin-scalar-names-configured", "W5-upload-scalars
 
 
 def all_worlds() -> List[dict]:
-    return [W1, W2, W2b, W3, W4, W5, W7, W8, W8s, W9, W9k, W15] + W10 + W11 + W12 + W13 + W14 + W16 + W17 + [W18, W19, W21] + W22
+    return [W1, W2, W2b, W3, W4, W5, W7, W8, W8s, W8t, W9, W9k, W15] + W10 + W11 + W12 + W13 + W14 + W16 + W17 + [W18, W19, W21] + W22
 
 
 def by_id(wid: str) -> dict:
